@@ -68,6 +68,11 @@ theorem C17_lookup_case_blind (a : Arch) (n n' : Bytes) (h : Str.eqCI n n' = tru
     a.index n = a.index n' ∧ a.contains n = a.contains n' :=
   C17_lookup_spelling a n n' (C19.C19_pathEq_contains_eqCI n n' h)
 
+/-- … and to a leading `./` on any relative name -/
+theorem C17_lookup_ignores_dot_slash (a : Arch) (n : Bytes) (hrel : n.head? ≠ some sep) :
+    a.index ([dot, sep] ++ n) = a.index n ∧ a.contains ([dot, sep] ++ n) = a.contains n :=
+  C17_lookup_spelling a _ _ (C19.C19_pathEq_ignores_leading_dot_slash n hrel)
+
 /-- in a duplicate-free archive looking up the i-th name returns i -/
 theorem C17_self_index (a : Arch) (hnd : ∀ i j (hi : i < a.names.length) (hj : j < a.names.length), i ≠ j →
       pathsAreEqual a.names[i] a.names[j] = false) (i : Nat) (hi : i < a.names.length) :
